@@ -2,6 +2,7 @@ package rules
 
 import (
 	"fmt"
+	"go/constant"
 	"go/token"
 	"go/types"
 	"regexp"
@@ -148,14 +149,26 @@ func (c *Ctx) INT1(rule string) []report.Obligation {
 		"every Substitute call of the package receives the result of value.(string)", "substitution is applied to something else than a string scalar (or not at all)"))
 	// the mapping arm stores under the range key
 	keyed := false
-	for _, l := range findMapLoops(f) {
-		for b := range l.region {
-			for _, in := range b.Instrs {
-				if mu, ok := in.(*ssa.MapUpdate); ok && l.isIterKey(mu.Key) {
-					keyed = true
-				}
-				if call, ok := in.(*ssa.Call); ok && call.Call.StaticCallee() == nil && loadedField(call.Call.Value) == "Substitute" {
-					keyed = false
+	arms := []*ssa.Function{f}
+	for _, cs := range callSites(f, func(com *ssa.CallCommon) bool {
+		cal := com.StaticCallee()
+		return cal != nil && cal != f && c.P.InModule(cal) && strings.HasPrefix(c.P.FuncID(cal), "interpolation.")
+	}) {
+		arms = append(arms, cs.Common().StaticCallee()) // the arms of the type switch may be helpers of the package
+	}
+	for _, g := range arms {
+		for _, l := range findMapLoops(g) {
+			if _, isAny := l.rng.X.Type().Underlying().(*types.Map).Elem().Underlying().(*types.Interface); !isAny {
+				continue
+			}
+			for b := range l.region {
+				for _, in := range b.Instrs {
+					if mu, ok := in.(*ssa.MapUpdate); ok && l.isIterKey(mu.Key) {
+						keyed = true
+					}
+					if call, ok := in.(*ssa.Call); ok && call.Call.StaticCallee() == nil && loadedField(call.Call.Value) == "Substitute" {
+						keyed = false
+					}
 				}
 			}
 		}
@@ -312,11 +325,21 @@ func (c *Ctx) CODEC(rule string) []report.Obligation {
 			}
 		}
 		var cut []string
-		for _, ci := range callSites(ts, func(com *ssa.CallCommon) bool {
-			return staticName(com) == "strings.Cut" || staticName(com) == "strings.SplitN" || staticName(com) == "strings.Split"
+		// (the cut may live in a helper of the package that parses one entry)
+		parsers := []*ssa.Function{ts}
+		for _, cs := range callSites(ts, func(com *ssa.CallCommon) bool {
+			cal := com.StaticCallee()
+			return cal != nil && c.P.InModule(cal) && strings.HasPrefix(c.P.FuncID(cal), "transform.") && cal != ts
 		}) {
-			if s, ok := prog.ConstString(ci.Common().Args[1]); ok {
-				cut = append(cut, s)
+			parsers = append(parsers, cs.Common().StaticCallee())
+		}
+		for _, pf := range parsers {
+			for _, ci := range callSites(pf, func(com *ssa.CallCommon) bool {
+				return staticName(com) == "strings.Cut" || staticName(com) == "strings.SplitN" || staticName(com) == "strings.Split"
+			}) {
+				if s, ok := prog.ConstString(ci.Common().Args[1]); ok {
+					cut = append(cut, s)
+				}
 			}
 		}
 		good := len(rendered) == 1 && len(cut) == 1 && rendered[0] == cut[0]
@@ -1064,6 +1087,10 @@ func (c *Ctx) TREEPATH(rule string) []report.Obligation {
 		switch s := v.(type) {
 		case *ssa.Const:
 			return nil, 0, ""
+		case *ssa.MakeSlice:
+			if k, isC := constInt(s.Len); isC && k == 0 {
+				return nil, 0, "" // make([]string, 0, n): filled by the appends that follow
+			}
 		case *ssa.Slice:
 			al, isAlloc := s.X.(*ssa.Alloc)
 			if !isAlloc {
@@ -2289,6 +2316,22 @@ func (c *Ctx) BOOLTAB(rule string) []report.Obligation {
 		rv := retValue(ret, 0)
 		if mi, ok := rv.(*ssa.MakeInterface); ok {
 			rv = mi.X
+		}
+		if cmp, isCmp := rv.(*ssa.BinOp); isCmp && (cmp.Op == token.EQL || cmp.Op == token.NEQ) {
+			// `return lower == "true", nil` reached knowing lower == sv: the result is sv == "true"
+			subject := bo.X
+			if _, isC := prog.ConstString(bo.X); isC {
+				subject = bo.Y
+			}
+			other, isC2 := prog.ConstString(cmp.Y)
+			side := cmp.X
+			if !isC2 {
+				other, isC2 = prog.ConstString(cmp.X)
+				side = cmp.Y
+			}
+			if isC2 && side == subject {
+				rv = ssa.NewConst(constant.MakeBool((sv == other) == (cmp.Op == token.EQL)), types.Typ[types.Bool])
+			}
 		}
 		if bv, isB := constBool(rv); isB {
 			table[sv] = fmt.Sprint(bv)
